@@ -100,9 +100,9 @@ func c28Eval(api bool, pats []string, path string, exts []string) (term, human s
 	return
 }
 
-var c28PatComps = []string{"a", "b", "ab", "*", "?", "**", "[a-b]", "[^a]", "\\*", "a*", "*b", "?b", "c", "A", "[", "[a-", "a\\", "**a", "[]a]", ".", "..", "", "x*y*", "[a-b]*"}
-var c28GoodPatComps = []string{"a", "b", "ab", "*", "?", "**", "[a-b]", "[^a]", "\\*", "a*", "*b", "c", "**", "**"}
-var c28PathComps = []string{"a", "b", "ab", "c", "*", "abb", "A", "xay", "ba", "", "[", "x", "a", "b"}
+var c28PatComps = []string{"\\a", "a\\b", "\\[", "\\?b", "a\\*", "\\!a", "a", "b", "ab", "*", "?", "**", "[a-b]", "[^a]", "\\*", "a*", "*b", "?b", "c", "A", "[", "[a-", "a\\", "**a", "[]a]", ".", "..", "", "x*y*", "[a-b]*"}
+var c28GoodPatComps = []string{"\\a", "a\\b", "\\[", "a\\*", "a", "b", "ab", "*", "?", "**", "[a-b]", "[^a]", "\\*", "a*", "*b", "c", "**", "**"}
+var c28PathComps = []string{"a", "b", "ab", "c", "*", "a*", "?b", "abb", "A", "xay", "ba", "", "[", "x", "a", "b"}
 
 func c28Pattern(rng *vrng, good bool, neg bool) string {
 	n := 1 + rng.intn(4)
@@ -162,6 +162,9 @@ func c28Instantiate(rng *vrng, pat string) string {
 			out = append(out, rng.pick("b", "ab", "abb"))
 		case "", ".":
 		default:
+			if strings.Contains(c, "\\") && !strings.HasSuffix(c, "\\") {
+				c = strings.ReplaceAll(c, "\\", "")
+			}
 			out = append(out, c)
 		}
 	}
@@ -231,7 +234,12 @@ func engineC28(c *vctx) error {
 		{"!a", "/a", []string{"b"}}, {"!", "/a", []string{"."}}, {"!/a/*", "/a", []string{"b"}}, {"", "/a", []string{"b"}}, {"a", "", []string{"a"}}, {"", "", nil},
 		{"/a/**/c", "/a", []string{"c", "b/c", "b"}}, {"/a/**/c", "/b", []string{"c"}}, {"/a/b/**/c", "/a", []string{"b/c", "x/c"}}, {"/a/b/**/c", "/a/x", []string{"c"}}, {"/a/b/c", "/a/b/c/d", []string{"e"}},
 		{"/a/b/c", "/a/b", []string{"c", "d"}}, {"/a/b/c", "/a/x", []string{"c"}}, {"/a/*/c", "/a/x/y", []string{"c"}}, {"/A", "/a", nil}, {"a", "a/b/a", []string{"a"}}, {"b/a", "a/b/a", []string{"a"}},
-		{"/a/[/c", "/a", []string{"x/c"}}, {"/a/[/c", "/b", []string{"x/c"}}, {"/a/[/**/c", "/a/x/y", []string{"c"}},
+		{"/a/[/c", "/a", []string{"x/c"}},
+		{"/a/b/**/c", "/a", []string{"b/x/c", "b/c", "b", "b/x/y/c"}}, {"/a/b/**/c", "/a/b", []string{"x/c", "c", "x/y/c"}}, {"/a/b/**/c", "/a/b/x", []string{"c", "y/c"}},
+		{"/a/b/c/**", "/a", []string{"b/c/d", "b/c", "b"}}, {"/a/b/c/**", "/a/b", []string{"c/d", "c"}}, {"/a/b/c/**", "/a/b/c", []string{"d", "d/e"}},
+		{"/a/*/c/**/d", "/a", []string{"x/c/d", "x/c/y/d"}}, {"/a/*/c/**/d", "/a/x", []string{"c/d", "c/y/d"}}, {"/a/b/c/d", "/a", []string{"b/c/d"}}, {"/a/b/c/d", "/a/b", []string{"c/d"}},
+		{"\\a", "/a", []string{"b"}}, {"/x/\\a", "/x", []string{"a", "b"}}, {"a\\b", "/ab", []string{"c"}}, {"\\!keep", "/!keep", []string{"a"}}, {"/x/a\\ b", "/x", []string{"a b"}},
+		{"\\[", "/[", nil}, {"\\?b", "/?b", []string{"a"}}, {"\\?b", "/ab", nil}, {"a\\*", "/a*", []string{"b"}}, {"a\\*", "/ab", nil}, {"\\a*", "/abc", nil}, {"[\\]]", "/]", nil}, {"/a/[/c", "/b", []string{"x/c"}}, {"/a/[/**/c", "/a/x/y", []string{"c"}},
 	}
 	for _, x := range corpus {
 		emit("corpus-single", false, []string{x.pat}, x.path, x.exts)
@@ -276,7 +284,7 @@ func engineC28(c *vctx) error {
 	}
 
 	// ---- random ----
-	rounds := c.n(420, 12000)
+	rounds := c.n(260, 2500)
 	for r := 0; r < rounds; r++ {
 		rng := c.rng.fork()
 		good := rng.chance(70)
@@ -292,28 +300,39 @@ func engineC28(c *vctx) error {
 					path = "/" + path
 				}
 			}
-			// cut the path somewhere so that the directory/descendant relation is exercised at every depth
+			// every proper prefix directory of the path, with the remaining suffix as a descendant: when the
+			// path matches, childMatch must answer true at every ancestor
 			cs := strings.Split(path, "/")
-			cut := 1 + rng.intn(len(cs))
-			dir := strings.Join(cs[:cut], "/")
-			var exts []string
-			if cut < len(cs) {
-				exts = append(exts, strings.Join(cs[cut:], "/"))
-				if cut+1 < len(cs) {
-					exts = append(exts, cs[cut])
-				}
-			}
-			if dir == "" {
-				if rng.chance(90) {
-					dir = "/"
-				}
-			}
-			exts = append(exts, c28Exts(rng, 1+rng.intn(2))...)
 			kind := "single"
 			if !good {
 				kind = "single-any"
 			}
-			emit(kind, false, []string{p}, dir, exts)
+			for cut := 1; cut <= len(cs); cut++ {
+				if cut < len(cs) && cut > 1 && !rng.chance(70) {
+					continue
+				}
+				dir := strings.Join(cs[:cut], "/")
+				var exts []string
+				if cut < len(cs) {
+					exts = append(exts, strings.Join(cs[cut:], "/"))
+					if cut+1 < len(cs) {
+						exts = append(exts, cs[cut])
+					}
+				}
+				if dir == "" {
+					if cut < len(cs) && cs[0] == "" {
+						// absolute path: the first directory is "/x"; the root itself is queried rarely
+						if !rng.chance(15) {
+							continue
+						}
+					}
+					if rng.chance(90) {
+						dir = "/"
+					}
+				}
+				exts = append(exts, c28Exts(rng, 1)...)
+				emit(kind, false, []string{p}, dir, exts)
+			}
 		default: // pattern list with negations
 			n := 1 + rng.intn(4)
 			pats := make([]string, n)
